@@ -33,8 +33,12 @@ CHECKS.update({
   ref="4 C04"),
  "C05": dict(
   text="Same generated one-step family as C01: after every set / cset / delete (accepted or rejected) ls of each parent and the root listing equal the "
-       "distinct next segments of the reference keys, 'no such value' exactly when nothing is at or below the parent.",
-  note=BASE + "Outside the claim so far: the lists actually pushed to ls-subscribers (Worterbuch::notify_ls_subscribers), pls.", ref="4 C05"),
+       "distinct next segments of the reference keys, 'no such value' exactly when nothing is at or below the parent. Store::pls for every pattern of <= 2 segments over {a,b,?} (chosen by the "
+       "solver) on {a/a, a/b, b} and on {a/a/b, b} (a value-only leaf next to a deeper branch): exactly the union of the child lists of the matching parents. The child lists REPORTED for "
+       "ls-subscribers by Store::insert / delete / delete_matches (subscriptions on the root, an existing parent, a not-yet-existing parent; delete of one / the only child; pdelete a/? removing "
+       "both children, ?, a/#, ?/a; new child, overwrite): the LAST list reported for a subscriber equals what ls of its parent returns afterwards, and something is reported whenever the set changed.",
+  note=BASE + "Outside the claim: Worterbuch::notify_ls_subscribers / subscribe_ls (the loop that pushes the reported lists into the subscribers' queues in order, and the initial list), ls-subscriptions "
+       "during import, rejected cset with ls-subscribers present, patterns of > 2 segments.", ref="A C05"),
  "C06": dict(
   text="Whole lock operations of the real store (Store::lock, acquire_lock, unlock, unlock_all and Lock::release/queue) from directly constructed lock "
        "states (free; held with 0, 1, 2, 3 waiters), caller chosen by the solver: single holder, lock Ok iff free or holder, confirmation exactly once and "
@@ -145,12 +149,28 @@ CHECKS.update({
        "in DESIGN.md A as unconfirmed observations, not findings. Outside: TCP transport and line codec of the sync channel, more than one follower, quiescence detection.", ref="A C11"),
 })
 
+CHECKS.update({
+ "C10": dict(
+  text="The WHOLE persistence/json/v3.rs (synchronous, asynchronous, write_and_check, write_to_disk, write_file, validate_file_content, load, try_load, "
+       "try_load_grave_goods_last_will, read_json_from_file, file_paths, toggle_alternating_files and its selector switch, compute_checksum, validate_checksum) executed symbolically on a MODEL FILE "
+       "SYSTEM whose process can be killed: the crash point - the number c of mutating file operations (create, write_all, rename, remove_file) the flush is allowed before every call fails - "
+       "and the byte a reader finds in a torn file are the solver's variables. From the directory two completed flushes leave (both selector states; a separate harness shows a real flush "
+       "writes exactly that layout), a third flush (shutdown flush `synchronous` and periodic flush `asynchronous`) is killed after c operations for EVERY c in 0..=14 (14 = the whole flush), "
+       "the server restarts and runs the real `load`: something loads; the store is the last completed snapshot or the one in progress (the new one if the flush reported success), never the "
+       "older one, never a torn or partial file; the grave goods and last wills applied are those of the SAME snapshot. Also: the second flush ever (quick) and the first flush ever (thorough).",
+  note=BASE + "Environment model (trusted, listed in the evidence): file system = 20 named slots (10 file names + their *.tmp), atomic rename / create / remove, operations persist in order "
+       "(the property's own process-crash model; no fsync / power-loss reordering), an interrupted write_all leaves a torn file; the JSON text codec is a token codec (snapshots are opaque triples "
+       "(k, k+3, k+6)), SHA-256 + hex an injective stand-in (assumption: no collisions); format! inside v3.rs is shadowed (only \"{}.tmp\" modelled); Worterbuch / Config / CloneableWbApi are stand-ins "
+       "(export, from_persistence, apply_grave_goods, apply_last_wills record what they are given). Counterexamples are replayed on the ORIGINAL async v3.rs with REAL tokio::fs in a scratch directory, "
+       "REAL serde_json text and REAL SHA-256. Outside the claim: `periodic`'s select! loop and PERSISTENCE_LOCKED, the v2 / v1 fallback loaders, sequences of two crashes, concurrent periodic + shutdown "
+       "flushes, the real store behind export / from_persistence (C09), ReDB (C18).", ref="A C10"),
+})
+
 NA = {
 }
 PENDING = []
 NA_FIXED = {
- "C10": "crash-consistency of the JSON persistence is a property of file-system call sequences (tokio::fs write / rename / remove of the a/b files, checksum files and the toggle file in persistence/json/v3.rs) under a crash at any point; encoding it needs a model file system with a symbolic crash point underneath async tokio::fs code plus the serde_json text codec and SHA-256 over file contents - the codec alone exhausts 17-19 GB / 10 min for a one-field message (measured, see C14) and hashing is a loop over symbolic bytes; no kernel of the property is left once both are cut out, so it is declined rather than claimed on a model",
- "C12": "promotion of a follower is the composition of the sync channel (TCP, line codec), the persistence files (see C10) and process supervision by the cluster orchestrator; the only sequential kernel - that a follower's store equals the leader's after each forwarded command - is what C11 decides, and the part specific to C12 (registrations known to the follower at promotion) needs initial_sync / StateSync, which did not fit (C11 level_note)",
+ "C12": "promotion of a follower is the composition of the sync channel (TCP, line codec), the persistence files (C10 decides their crash consistency for snapshots as opaque tokens) and process supervision by the cluster orchestrator; the only sequential kernel - that a follower's store equals the leader's after each forwarded command - is what C11 decides, and the part specific to C12 (registrations known to the follower at promotion) needs initial_sync / StateSync, which did not fit (C11 level_note)",
  "C14": "the property is the serde_json text codec composed with serde derives; the real codec exhausts 17-19 GB / 10 min under Kani/CBMC for a one-field message (measured), and a model codec would only verify the model",
  "C18": "ReDB is an on-disk B-tree behind a background writer task and file I/O; neither the database nor the batching schedule can be executed symbolically here and no pure kernel of the property remains",
  "C20": "answer pairing under concurrent tasks, a live server and a time-driven send buffer are schedule properties of multi-task tokio code; Kani does not handle concurrency and the one sequential kernel (transaction-id allocation) decides no clause of the statement",
@@ -189,7 +209,7 @@ def main():
         "engines": [{"name": "kani-cbmc", "path": "/verif/check", "serves_properties": sorted(CHECKS), "kind_free_text": TECH}],
         "checks": checks,
         "not_applicable": sorted(na, key=lambda x: x["property_id"]),
-        "notes": "Solver-based checking of the real code; see DESIGN.md (section A = as built). Fix commits in /repo (each a genuine defect found by a check, replayed natively; known_findings.json status fixed): e5d19e9, 45f8a30, fdbe9fb, f2021a5, 26f2741. Open findings are reported as KNOWN-FINDING lines (exit 0). Seeded changes and what caught them: seeded/ and DESIGN.md A.",
+        "notes": "Solver-based checking of the real code; see DESIGN.md (section A = as built). Fix commits in /repo (each a genuine defect found by a check, replayed natively; known_findings.json status fixed): e5d19e9, 45f8a30, fdbe9fb, f2021a5, 26f2741, 9db8c51. Open findings are reported as KNOWN-FINDING lines (exit 0). Seeded changes and what caught them: seeded/ and DESIGN.md A.",
     }
     json.dump(m, open(os.path.join(V, "MANIFEST.json"), "w"), indent=1)
 
